@@ -36,6 +36,8 @@ macro "md_frame" : tactic => `(tactic| (unfold markDone; split <;> (try split) <
   md_frame
 @[simp] theorem markDone_stopping (s : State) (r : Req) : (markDone s r).stopping = s.stopping := by
   md_frame
+@[simp] theorem markDone_paused (s : State) (r : Req) : (markDone s r).paused = s.paused := by
+  md_frame
 @[simp] theorem markDone_sys (s : State) (r : Req) : (markDone s r).sys = s.sys := by
   md_frame
 @[simp] theorem markDone_runId (s : State) (r : Req) : (markDone s r).runId = s.runId := by
@@ -95,6 +97,7 @@ theorem isDone_markDone_mono (s : State) (r c : Req) (h : isDone s c = true) : i
 /-! ### the part of the state that neither tracking marks nor object updates touch -/
 
 structure View where
+  paused : Bool
   queue : List Req
   executing : List Req
   tracking : Bool
@@ -114,7 +117,7 @@ structure View where
   trackIds : List Nat
 
 def view (s : State) : View :=
-  ⟨s.queue, s.executing, s.tracking, s.resident, s.restartPending, s.resetTo, s.started, s.stopping, s.sys,
+  ⟨s.paused, s.queue, s.executing, s.tracking, s.resident, s.restartPending, s.resetTo, s.started, s.stopping, s.sys,
    s.runId, s.nextRun, s.simulated, s.stopLog, s.resets, s.nextId, s.cfg, s.track.map (·.id)⟩
 
 theorem view_eq {s s' : State} (h : view s' = view s) :
@@ -124,7 +127,11 @@ theorem view_eq {s s' : State} (h : view s' = view s) :
     s'.simulated = s.simulated ∧ s'.stopLog = s.stopLog ∧ s'.resets = s.resets ∧ s'.nextId = s.nextId ∧
     s'.cfg = s.cfg ∧ s'.track.map (·.id) = s.track.map (·.id) := by
   simp only [view, View.mk.injEq] at h
-  exact h
+  exact h.2
+
+theorem view_paused {s s' : State} (h : view s' = view s) : s'.paused = s.paused := by
+  simp only [view, View.mk.injEq] at h
+  exact h.1
 
 @[simp] theorem view_markDone (s : State) (r : Req) : view (markDone s r) = view s := by
   simp [view]
